@@ -293,7 +293,9 @@ ssize_t io::stream::push(size_t len, const void *src)
 		command *c;
 		if ((c = _wait.handler(_cid))) {
 			c->cmd(c->arg, 0);
+			c->cmd = 0;
 		}
+		_cid = 0;
 	}
 	return curr;
 }
